@@ -186,6 +186,58 @@ impl Arm for EnumArm {
     }
 }
 
+/// Every honest proof of the option grid (trace length x blowup x folding x remainder degree)
+/// delivered with its three FRI-relevant option bytes set to every other *valid* combination:
+/// the verifier then follows a degree / layer schedule that the proof was not made for -
+/// including schedules that fold a layer below two points or leave no remainder.
+struct OptionsCross;
+
+const ALT_BLOWUP: [u64; 5] = [2, 4, 8, 16, 128];
+const ALT_FOLDING: [u64; 4] = [2, 4, 8, 16];
+const ALT_RMAX: [u64; 7] = [0, 1, 3, 7, 15, 127, 255];
+const ALTS: u64 = 5 * 4 * 7;
+
+impl Arm for OptionsCross {
+    fn name(&self) -> String {
+        "options-cross".into()
+    }
+    fn runs(&self, _tier: Tier, _seed: u64) -> u64 {
+        GRID_POINTS as u64 * ALTS
+    }
+    fn exhaustive(&self) -> bool {
+        true
+    }
+    fn run(&self, info: &RunInfo, ch: &mut Chooser, ctx: &mut Ctx) {
+        let g = (info.run / ALTS) as usize;
+        let a = info.run % ALTS;
+        let Some(base) = grid_base(info.seed, g) else {
+            ctx.skipped = Some("grid_point_has_no_well_formed_schedule");
+            return;
+        };
+        let (b2, f2, r2) = (ALT_BLOWUP[(a % 5) as usize], ALT_FOLDING[(a / 5 % 4) as usize], ALT_RMAX[(a / 20 % 7) as usize]);
+        let lay = base.layout();
+        let get = |n: &str| lay.fields.iter().find(|f| f.name == n);
+        let (Some(fb), Some(ff), Some(fr)) = (get("ctx.opt.blowup"), get("ctx.opt.folding"), get("ctx.opt.remainder_max_degree")) else {
+            panic!("harness: option fields not found in the layout");
+        };
+        let mut data = wire::set_count(base.bytes(), fb, b2);
+        data = wire::set_count(&data, ff, f2);
+        data = wire::set_count(&data, fr, r2);
+        if data == base.bytes() {
+            ctx.skipped = Some("identity");
+            return;
+        }
+        let what = format!("options set to blowup {b2}, folding {f2}, remainder max degree {r2}");
+        ctx.fault("valid_option_set_of_another_schedule");
+        danger_zone(ch);
+        let d = base.deliver(&data, false, Inputs::Matching, 0, ch, ctx);
+        ctx.event_with("deliver", info.run ^ simcore::rng::fnv1a(format!("{:?}{:?}", d.parse, d.verify.as_ref().map(|v| v.short())).as_bytes()), || {
+            format!("base [{}]: {what} -> parse {:?}, verify {}", base.name(), d.parse, d.verify.as_ref().map(|v| v.short()).unwrap_or("-".into()))
+        });
+        judge(ctx, "C06", base, &what, &d, data.len());
+    }
+}
+
 struct SampledArm;
 
 impl Arm for SampledArm {
@@ -318,6 +370,8 @@ pub fn spec() -> CheckSpec {
         iso(Box::new(EnumArm { kind: EnumKind::BitFlips, index: simcore::Keyed::new(), quick_bases: 12 })),
         iso(Box::new(SampledArm)),
         iso(Box::new(FreshContextArm)),
+        iso(Box::new(OptionsCross)),
+        Box::new(IsoArm { check_id: "C06", inner: Box::new(OptionsCross), timeout_s: 60, exe_env: Some("WFSIM_OVF"), alias: Some("options-cross-overflow-checked") }),
         // the same inputs in the overflow-checking build: arithmetic overflow that release builds
         // wrap silently shows up as a panic there
         Box::new(IsoArm {
@@ -340,7 +394,7 @@ pub fn spec() -> CheckSpec {
         id: "C06",
         level: "fault_enumeration",
         build: "serial (+ overflow-checking build for two arms)",
-        rule: "bases = honest proofs of the protocol sim across every (field, hasher) pair, the three extensions and option / shape flavours (aux segment, wide trace, grinding), 0.5-4 KiB each. Enumerated completely per base: every length / count / size / tag field x all 256 values (one-byte fields) or {0, 1, 2, max/2, max/2+1, max-1, max, true+-1} (wider fields); 9 kinds x 16 variants of self-consistent structural edits (trace metadata of another length, OOD frame size with matching states, Lagrange frame supplied, one opened row more / fewer in every query set with num_unique_queries adjusted, one FRI query more / fewer, field modulus of another length, one commitment more / fewer, GKR proof of announced length, remainder of another size); every truncation offset (torn write); every single-bit flip (quick: the first 12 bases, thorough: all). Sampled: byte overwrites, trailing garbage, removed / duplicated / swapped components with and without fixing counters and length prefixes, blob growth / shrinkage, splices of two proofs, random fields, random strings, pairs of faults; context / options / trace-info fields of freshly generated proofs (AIR shape varies per run) set to neighbouring and boundary values; delivery by Proof::from_bytes or by Proof::read_from over ReadAdapter over a hostile-chunking simulated source; verification with matching or perturbed public inputs under three acceptance policies. Each case runs in an isolated worker with an allocation meter. Non-trivial = a fault fired (all runs); distinct = distinct event-log digests.".into(),
+        rule: "bases = honest proofs of the protocol sim across every (field, hasher) pair, the three extensions and option / shape flavours (aux segment, wide trace, grinding), 0.5-4 KiB each. Enumerated completely per base: every length / count / size / tag field x all 256 values (one-byte fields) or {0, 1, 2, max/2, max/2+1, max-1, max, true+-1} (wider fields); 9 kinds x 16 variants of self-consistent structural edits (trace metadata of another length, OOD frame size with matching states, Lagrange frame supplied, one opened row more / fewer in every query set with num_unique_queries adjusted, one FRI query more / fewer, field modulus of another length, one commitment more / fewer, GKR proof of announced length, remainder of another size); every truncation offset (torn write); every single-bit flip (quick: the first 12 bases, thorough: all). Sampled: byte overwrites, trailing garbage, removed / duplicated / swapped components with and without fixing counters and length prefixes, blob growth / shrinkage, splices of two proofs, random fields, random strings, pairs of faults; context / options / trace-info fields of freshly generated proofs (AIR shape varies per run) set to neighbouring and boundary values; delivery by Proof::from_bytes or by Proof::read_from over ReadAdapter over a hostile-chunking simulated source; verification with matching or perturbed public inputs under three acceptance policies. options-cross (enumerated completely, also in the overflow-checking build): one honest proof per point of the grid trace length {8,16,32} x blowup {2,4,8} x folding {2,4,8,16} x remainder max degree {0,1,3,7} that has a well-formed FRI schedule, delivered with its blowup / folding / remainder option bytes set to every other valid combination (5 x 4 x 7), so that the verifier follows a layer schedule the proof was not made for. Each case runs in an isolated worker with an allocation meter. Non-trivial = a fault fired (all runs); distinct = distinct event-log digests.".into(),
         interleaving_measure: "distinct (base, fault, delivery mode, chunking) histories".into(),
         real: vec!["Proof / Context / TraceInfo / ProofOptions / Commitments / Queries / OodFrame / FriProof deserializers", "winter-verifier verify() incl. VerifierChannel, composer, FRI verifier, Merkle batch verification", "utils::ReadAdapter on the streamed deliveries"],
         stub: vec!["the byte source (SimRead)", "SimAir (the AIR handed to verify(); asserts nothing itself)"],
